@@ -132,12 +132,23 @@ type cbCount struct {
 	mu       sync.Mutex
 	reported int
 	ch       chan struct{}
+	dead     chan string // run() panicked (deferred yield point 19): the case ends with the item `!`
 }
 
 var cbCounts sync.Map // *ansi.Parser → *cbCount
 
 func installSchedHook() {
 	ansi.VerifSchedHook = func(p *ansi.Parser, point int, pv any) {
+		if pv != nil && point == 19 {
+			// run() panicked (nil exit function, index out of range in an action, …): the case ends here with `!`
+			if v, ok := cbCounts.Load(p); ok {
+				select {
+				case v.(*cbCount).dead <- fmt.Sprint(pv):
+				default:
+				}
+				return
+			}
+		}
 		if pv != nil {
 			panic(pv) // point 39 recovered a panic of the callback for us: not wanted here, let it take the process down as without the hook
 		}
@@ -377,7 +388,7 @@ type held struct {
 
 // runOnce runs the script; consumer = "i", "r" or "k<N>".
 func runOnce(s script, consumer string) string {
-	rd := &scriptReader{s: s, ready: make(chan struct{}), cb: &cbCount{ch: make(chan struct{}, 1)}}
+	rd := &scriptReader{s: s, ready: make(chan struct{}), cb: &cbCount{ch: make(chan struct{}, 1), dead: make(chan string, 1)}}
 	p := ansi.NewParser(rd)
 	rd.p = p
 	cbCounts.Store(p, rd.cb)
@@ -426,6 +437,9 @@ loop:
 				p.Finish(h.orig)
 				finished++
 			}
+		case <-rd.cb.dead:
+			toks = append(toks, "!")
+			break loop
 		case <-deadline.C:
 			toks = append(toks, "hang")
 			break loop
